@@ -1,4 +1,5 @@
-"""C11 over the whole life of ONE Gateway object that has a persistence file.
+"""C11 over the whole life of a controller that has a persistence file: ONE Gateway object entered several times,
+and a controller that is started again (a NEW Gateway object on the same file).
 
 The property quantifies over "all registry contents ... and all sequences of id requests interleaved with
 presentations", and it names three ways an id gets into the registry: *restored from persistence*, presented,
@@ -16,11 +17,26 @@ written; the answer is addressed like the request; the too-many-nodes error writ
 raised only when no id above the highest registered id is free.  Nothing here says how `load` has to combine
 the file with the registry - only what id requests may answer afterwards.
 
+A session is a real `async with gateway:` statement running in a task of its own, and it ends in every way such a
+statement can end: the body ends normally; an exception leaves the body - a library error raised by the listen loop
+(the connection drops: the read fails; a line that cannot be handled; the write of an answer fails) which the
+application does not handle inside the block, or an exception of the application's own code (several classes, one of
+them not an `Exception`); the task is cancelled while the body waits (in `listen()` for the next line, or in an await
+of its own).  After the end the controller may be started again: a new Gateway object with the same persistence file
+(`restart`).  "Two requests never receive the same id" then rests on the file: whatever the gateway had registered when
+a session ended is restored by the next start, PROVIDED the context statement did not report a failure of its own (the
+final save fails when the volume is away: the statement then ends with the persistence write error and the application
+knows that the file is stale - nothing is promised about ids registered since the last save that succeeded) and nobody
+else replaced, deleted or damaged the file in between.  The oracle keeps, next to what the current object has had
+registered, what the library's own successful writes have put into the file (`on_file`): dropped when someone else
+touches the file, replaced whenever the library writes the file without reporting an error, and added to what must not
+be handed out again whenever an object loads its file successfully.
+
 Model: sessions, volumes and files are not operations of the gateway model.  Its state (registry, version,
 buffers) is unaffected by enter/exit, and what a *successful* load does to the registry is expressed with the
 driver's `gnode` operation, one per entry the harness itself read from the file just before the load (the
-registry after a load = the registry before, with the file's entries set in file order).  Received lines are
-`grecv` as everywhere.  Compared on the ids view.  Lives containing a load the harness cannot express that way
+registry after a load = the registry before, with the file's entries set in file order).  A restart is a fresh model
+gateway (`gnew`).  Received lines are `grecv` as everywhere.  Compared on the ids view.  Lives containing a load the harness cannot express that way
 (a file whose valid entries are followed by an invalid one, or a file the harness and the implementation judge
 differently) are compared up to that load and judged by the oracle alone afterwards.
 """
@@ -39,19 +55,47 @@ from .. import gw, lib
 from ..lib import Corr, enc
 from .codec import ref_accepts
 
-KINDS = ("enter", "exit", "offline", "online", "file", "load", "reload", "save", "recv")
+KINDS = ("enter", "exit", "restart", "offline", "online", "file", "load", "reload", "save", "recv")
+
+# the ways an `async with gateway:` statement ends (("exit", how); how defaults to "clean")
+#   clean              the body ends normally
+#   drop               the connection drops: `transport.read()` fails, the library error leaves `listen()` and the block
+#   cancel             the task is cancelled while the body waits in `listen()` for the next line
+#   cancel-app         the task is cancelled while the body waits in an await of the application's own
+#   raise:<Class>      the application's code in the body raises <Class>
+# (a received line whose error the application does not handle inside the block: ("recv", ..., True))
+
+
+class AppError(Exception):
+    """An error of the application's own."""
+
+
+class AppStop(BaseException):
+    """The application's way to unwind (not an `Exception`, like KeyboardInterrupt / SystemExit / GeneratorExit)."""
+
+
+FOREIGN = {"RuntimeError": RuntimeError, "KeyError": KeyError, "OSError": OSError, "TimeoutError": TimeoutError,
+           "ValueError": ValueError, "AppError": AppError, "AppStop": AppStop}
+ENDS = ("clean", "drop", "cancel", "cancel-app") + tuple("raise:" + n for n in FOREIGN)
 
 
 # ---- a life ------------------------------------------------------------------------------------
 #
-# ops:  ("enter",)                      `await gateway.__aenter__()`        (skipped when already inside)
-#       ("exit",)                       `await gateway.__aexit__(None, None, None)`   (skipped when not inside)
+# ops:  ("enter",)                      a task starts `async with gateway:`; the operation ends when the body is reached
+#                                       or the enter has failed                       (skipped when already inside)
+#       ("exit",) / ("exit", how)       the statement ends in the way `how` (above)  (skipped when not inside)
+#       ("restart",)                    the controller is started again: a NEW Gateway object (and transport) on the same
+#                                       persistence file; the old one is dropped      (skipped when inside a session)
 #       ("offline",) / ("online",)      the directory holding the persistence file goes away / comes back
 #       ("file", spec)                  the persistence file is replaced by someone else (backup restored, edited, deleted)
 #       ("load", spec)                  `await gateway.persistence.load(other_path)`, other_path holding `spec`
 #       ("reload",)                     `await gateway.persistence.load()`
 #       ("save",)                       `await gateway.persistence.save()`
-#       ("recv", line, faults, time)    one received line through `gateway.listen()` (only inside a session)
+#       ("recv", line, faults, time)    one received line through `gateway.listen()` in the body (only inside a session);
+#                                       an error is handled by the application inside the block (the listen loop is
+#                                       started again)
+#       ("recv", line, faults, time, True)   the same, but the application does not handle errors inside the block: an
+#                                       exception leaves the body and ends the session
 # spec: a list of node ids (a well-formed file with these nodes, in this order) | None (no file)
 #       | {"bad": "garbage" | "list" | "entry"} (a file that cannot be loaded, nothing valid in it)
 #       | {"half": [ids]} (well-formed entries followed by one that is not)
@@ -70,7 +114,7 @@ class Life:
     @staticmethod
     def from_json(j):
         return Life(j["version"], j.get("metric", True), j.get("file0"),
-                    [(o[0], o[1], tuple(o[2]), tuple(o[3])) if o[0] == "recv" else tuple(o) for o in j["ops"]])
+                    [(o[0], o[1], tuple(o[2]), tuple(o[3]), *o[4:]) if o[0] == "recv" else tuple(o) for o in j["ops"]])
 
     def prefix(self, n: int) -> "Life":
         return Life(self.version, self.metric, self.file0, self.ops[:n])
@@ -158,6 +202,120 @@ async def _settle(g, path: str) -> None:
                 return
 
 
+class LifeTransport(gw.FaultTransport):
+    """The scripted transport, with a connection that can be idle (nothing arrives: the reader waits) or dropped."""
+
+    def __init__(self) -> None:
+        super().__init__()
+        self.dropped = False
+        self.waiting = asyncio.Event()      # set once a read waits for a line that does not come
+
+    async def read(self) -> str:
+        if self.lines:
+            return self.lines.pop(0)
+        if self.dropped:
+            raise gw.exc.TransportFailedError("connection lost")
+        self.waiting.set()
+        await asyncio.Event().wait()        # until the reader is cancelled
+        raise AssertionError("unreachable")
+
+
+class Session:
+    """One `async with gateway:` statement, in a task of its own.  Its body does what the life says next: receive a
+    line through `listen()` (handling an error inside the block, or not), raise, wait, or end."""
+
+    def __init__(self, g, tr: LifeTransport) -> None:
+        self.g, self.tr = g, tr
+        self.entered = asyncio.get_running_loop().create_future()
+        self.todo: asyncio.Queue = asyncio.Queue()
+        self.idle = asyncio.Event()         # set once the body waits in an await of its own
+        self.listener = None
+        self.body_exc = None                # what left the body (None: it ended normally)
+        self.stmt_exc = None                # what left the statement
+        self.task = asyncio.create_task(self._statement())
+
+    async def _statement(self) -> None:
+        try:
+            async with self.g:
+                self.entered.set_result(None)
+                try:
+                    await self._body()
+                except BaseException as e:
+                    self.body_exc = e
+                    raise
+        except BaseException as e:  # noqa: BLE001
+            self.stmt_exc = e
+            if not self.entered.done():
+                self.entered.set_exception(e)
+        finally:
+            if self.listener is not None:       # nothing is left to the garbage collector
+                listener, self.listener = self.listener, None
+                await listener.aclose()
+
+    async def _body(self) -> None:
+        while True:
+            what, done = await self.todo.get()
+            if what == "leave":
+                return
+            if what == "wait":
+                self.idle.set()
+                await asyncio.Event().wait()
+            if isinstance(what, BaseException):
+                raise what
+            # ("listen", uncaught)
+            if self.listener is None:
+                self.listener = self.g.listen()
+            try:
+                msg = await anext(self.listener)
+            except BaseException as e:  # noqa: BLE001
+                self.listener = None            # the generator is finished
+                done.set_result(e)
+                if what[1]:
+                    raise
+            else:
+                done.set_result(msg)
+
+    async def receive(self, uncaught: bool):
+        """The body takes the next message from `listen()`: the message, or the exception raised there."""
+        done = asyncio.get_running_loop().create_future()
+        self.todo.put_nowait((("listen", bool(uncaught)), done))
+        res = await done
+        if uncaught and isinstance(res, BaseException):
+            await asyncio.wait([self.task])
+        return res
+
+    async def end(self, how: str) -> None:
+        """The statement ends in the way `how`; returns when it has ended."""
+        self.tr.lines = []
+        if how == "clean":
+            self.todo.put_nowait(("leave", None))
+        elif how == "drop":
+            self.tr.dropped = True
+            self.todo.put_nowait((("listen", True), asyncio.get_running_loop().create_future()))
+        elif how in ("cancel", "cancel-app"):
+            if how == "cancel":
+                self.todo.put_nowait((("listen", True), asyncio.get_running_loop().create_future()))
+                reached = asyncio.ensure_future(self.tr.waiting.wait())
+            else:
+                self.todo.put_nowait(("wait", None))
+                reached = asyncio.ensure_future(self.idle.wait())
+            await asyncio.wait([self.task, reached], return_when=asyncio.FIRST_COMPLETED)
+            reached.cancel()
+            self.task.cancel()
+        elif how.startswith("raise:") and how[6:] in FOREIGN:
+            self.todo.put_nowait((FOREIGN[how[6:]]("the application's code failed"), None))
+        else:
+            raise ValueError(f"unknown way to end a session: {how!r}")
+        await asyncio.wait([self.task])
+
+    def ended(self) -> dict:
+        """How the statement ended.  `exit_ok`: `__aexit__` completed - what left the statement is what left the body
+        (nothing, when the body ended normally); otherwise `__aexit__` raised something of its own."""
+        ok = self.stmt_exc is self.body_exc
+        return {"left_by": None if self.body_exc is None else gw.render_exc(self.body_exc), "exit_ok": ok,
+                "exit_out": "ok" if ok else gw.render_exc(self.stmt_exc)}
+
+
 async def _run_life(life: Life, root: str):
     from aiomysensors.gateway import Config, Gateway
 
@@ -170,12 +328,16 @@ async def _run_life(life: Life, root: str):
     def where() -> str:         # where the file lives right now (someone may edit it while the volume is detached)
         return path if os.path.isdir(vol) else os.path.join(off, "nodes.json")
 
+    def start():
+        tr = LifeTransport()
+        g = Gateway(tr, Config(metric=life.metric, persistence_file=path))
+        if life.version is not None:
+            g.protocol_version = life.version
+        return tr, g
+
     write_spec(path, life.file0)
-    tr = gw.FaultTransport()
-    g = Gateway(tr, Config(metric=life.metric, persistence_file=path))
-    if life.version is not None:
-        g.protocol_version = life.version
-    inside, listener, n_other = False, None, 0
+    tr, g = start()
+    sess, n_other = None, 0
     obs = []
     for op in life.ops:
         tr.attempts, tr.faults = [], []
@@ -186,37 +348,48 @@ async def _run_life(life: Life, root: str):
             raise ValueError(f"unknown life operation {op!r}")
         try:
             if kind == "recv":
-                if not inside:
+                if sess is None:
                     o["skipped"], o["out"] = True, "skipped (not inside a session)"
                 else:
-                    _, line, faults, now = op
+                    line, faults, now = op[1:4]
+                    uncaught = len(op) > 4 and bool(op[4])
                     tr.lines, tr.faults = [line], list(faults)
                     gw.TIME_STUB.now = tuple(now)
-                    if listener is None:
-                        listener = g.listen()
-                    try:
-                        o["out"] = gw.render_msg(await anext(listener))
-                    except BaseException as e:  # noqa: BLE001
-                        o["out"] = gw.render_exc(e)
-                        listener = None
+                    res = await sess.receive(uncaught)
+                    if isinstance(res, BaseException):
+                        o["out"] = gw.render_exc(res)
+                        if uncaught:
+                            o["ended"] = sess.ended()
+                            sess = None
+                    else:
+                        o["out"] = gw.render_msg(res)
             elif kind == "enter":
-                if inside:
+                if sess is not None:
                     o["skipped"], o["out"] = True, "skipped (already inside)"
                 else:
                     o["file"] = read_store(path)
                     o["load_ok"] = False
-                    await g.__aenter__()
-                    o["load_ok"] = inside = True
+                    s = Session(g, tr)
+                    try:
+                        await s.entered
+                    except BaseException:
+                        await asyncio.wait([s.task])
+                        raise
+                    o["load_ok"], sess = True, s
                     await _settle(g, path)
             elif kind == "exit":
-                if not inside:
+                if sess is None:
                     o["skipped"], o["out"] = True, "skipped (not inside a session)"
                 else:
-                    if listener is not None:
-                        await listener.aclose()
-                        listener = None
-                    inside = False
-                    await g.__aexit__(None, None, None)
+                    s, sess = sess, None
+                    await s.end(op[1] if len(op) > 1 else "clean")
+                    o["ended"] = s.ended()
+                    o["out"] = o["ended"]["exit_out"]
+            elif kind == "restart":
+                if sess is not None:
+                    o["skipped"], o["out"] = True, "skipped (inside a session)"
+                else:
+                    tr, g = start()
             elif kind == "offline":
                 if os.path.isdir(vol):
                     os.rename(vol, off)
@@ -242,18 +415,13 @@ async def _run_life(life: Life, root: str):
                 await g.persistence.save()
         except BaseException as e:  # noqa: BLE001
             o["out"] = gw.render_exc(e)
-        o.update(before=before, after=list(g.nodes), writes=list(tr.attempts), inside=inside, state=gw.render_state(g))
+        o.update(before=before, after=list(g.nodes), writes=list(tr.attempts), inside=sess is not None, state=gw.render_state(g))
         obs.append(o)
     # leave nothing running
-    if listener is not None:
-        await listener.aclose()
     if os.path.isdir(off):
         os.rename(off, vol)
-    if inside:
-        try:
-            await g.__aexit__(None, None, None)
-        except BaseException:  # noqa: BLE001
-            pass
+    if sess is not None:
+        await sess.end("clean")
     return obs
 
 
@@ -283,30 +451,58 @@ def run_lives(lives):
 def _describe(life: Life, obs, upto: int) -> list[str]:
     out = []
     for i, (op, o) in enumerate(zip(life.ops[:upto], obs[:upto]), 1):
-        what = op[0] if op[0] != "recv" else f"recv {op[1]!r}" + (f" faults={list(op[2])}" if op[2] else "")
-        if op[0] in ("file", "load"):
+        what = op[0] if op[0] != "recv" else f"recv {op[1]!r}" + (f" faults={list(op[2])}" if op[2] else "") + (
+            " (errors not handled inside the block)" if len(op) > 4 and op[4] else "")
+        if op[0] in ("file", "load") or (op[0] == "exit" and len(op) > 1):
             what += f" {json.dumps(op[1])}"
         if "file" in o:
             what += f" [file read: {o['file'][0]}, ids {[e['id'] for e in o['file'][1]]}]"
         wr = [w[0] for w in o["writes"]]
-        out.append(f"{i}: {what} -> {o['out']}" + (f" writes={wr}" if wr else "") + f" registry={sorted(o['after'])}")
+        end = o.get("ended")
+        out.append(f"{i}: {what} -> {o['out']}" + (f" writes={wr}" if wr else "") + (
+            f" [session ended: body left by {end['left_by'] or 'its end'}, __aexit__ -> {end['exit_out']}]" if end else "")
+            + f" registry={sorted(o['after'])}")
     return out
 
 
 def judge(corr: Corr, life: Life, obs) -> bool:
     """The property restated over one life.  True: held."""
-    ever: set = set()        # every id this gateway object has had registered so far
-    handed: list = []        # every id it handed out so far, in order
+    ever: set = set()        # every id the current gateway object has had registered so far
+    handed: list = []        # every id handed out so far that must not be handed out again, in order
+    earlier: set = set()     # those of `handed` that an earlier gateway object handed out (known through the file)
+    saved: set = set()       # those of `ever` known only through what the library saved in the file
+    on_file = None           # (ids, handed): what the library's own successful writes have put into the persistence
+    #                          file and nobody else has touched since; None: nothing can be said about the file
+
+    def written():
+        """The library has written the registry to the file and reported no failure."""
+        nonlocal on_file
+        on_file = (set(ever), list(handed))
+
     for i, (op, o) in enumerate(zip(life.ops, obs)):
         before, after = set(o["before"]), set(o["after"])
+        if op[0] == "restart" and not o["skipped"]:
+            # a new gateway object: it has had nothing registered and has handed out nothing; what the old one knew
+            # lives on in the file only
+            ever, handed, earlier, saved = set(), [], set(), set()
+            continue
+        if op[0] == "file":
+            on_file = None                               # replaced, deleted or damaged by someone else
         ever |= before                                   # present in the registry
         if "file" in o and o.get("load_ok") and o["file"][0] == "ok":
             ever |= {e["id"] for e in o["file"][1]}      # restored from persistence
+        if op[0] in ("enter", "reload") and o.get("load_ok") and on_file is not None:
+            saved |= on_file[0] - ever
+            ever |= on_file[0]                           # restored from persistence: what the library saved there
+            earlier |= {n for n in on_file[1] if n not in handed}
+            handed += [n for n in on_file[1] if n not in handed]
         f = ref_accepts(op[1]) if op[0] == "recv" and not o["skipped"] else None
         if f is not None and f[2] == 0 and f[1] == 255 and o["out"].startswith("ok"):
             ever.add(f[0])                               # presented
         if f is None or not (f[2] == 3 and f[4] == 3):
             ever |= after
+            if (op[0] == "save" and o["out"] == "ok") or (o.get("ended") and o["ended"]["exit_ok"]):
+                written()
             continue
 
         def case():
@@ -326,6 +522,8 @@ def judge(corr: Corr, life: Life, obs) -> bool:
                 corr.violate("too-many-nodes error while an id above the highest registered id was still free", case())
                 return False
             ever |= after
+            if o.get("ended") and o["ended"]["exit_ok"]:
+                written()
             continue
         if len(resp) != 1:
             corr.violate("an id request did not get exactly one id response", case())
@@ -339,8 +537,18 @@ def judge(corr: Corr, life: Life, obs) -> bool:
         if not (1 <= nid <= 254) or nid in before or nid not in after:
             corr.violate("the id handed out is not fresh, not in 1..254, or not registered before the answer", case())
             return False
+        if nid in earlier:
+            corr.violate(f"id {nid} was handed out twice: first in an earlier run of the controller on this persistence file "
+                         "(every session since has ended without a failure reported by the context statement, nobody else "
+                         "touched the file), now again after a restart", case())
+            return False
         if nid in handed:
             corr.violate(f"id {nid} was handed out twice by the same gateway object", case())
+            return False
+        if nid in saved:
+            corr.violate(f"id {nid} was handed out although it was registered (presented or restored) in an earlier run of the "
+                         "controller on this persistence file (every session since has ended without a failure reported by the "
+                         "context statement, nobody else touched the file)", case())
             return False
         if nid in ever:
             corr.violate(f"id {nid} was handed out although this gateway object had it registered before (restored from "
@@ -352,6 +560,8 @@ def judge(corr: Corr, life: Life, obs) -> bool:
         handed.append(nid)
         ever.add(nid)
         ever |= after
+        if o.get("ended") and o["ended"]["exit_ok"]:
+            written()
     return True
 
 
@@ -364,12 +574,15 @@ def model_plan(life: Life, obs):
     plan = []
     for op, o in zip(life.ops, obs):
         if op[0] == "recv" and not o["skipped"]:
-            _, line, faults, now = op
+            line, faults, now = op[1:4]
             lines.append(f"grecv {enc(line)} {gw.faults_tok(faults)} " + " ".join(str(x) for x in now))
             lines.append("gdump")
             plan.append((0, True))
             continue
         n = 0
+        if op[0] == "restart" and not o["skipped"]:
+            lines.append(lines[0])      # a new gateway object
+            n = 1
         if "file" in o:
             status, entries = o["file"]
             ok = o.get("load_ok")
@@ -435,8 +648,8 @@ def compare_model(corr: Corr, lives, all_obs) -> int:
 # ---- generators --------------------------------------------------------------------------------
 
 
-def req(faults=(), node=255, child=255):
-    return ("recv", f"{node};{child};3;0;3;", tuple(faults), gw.DEFAULT_TIME)
+def req(faults=(), node=255, child=255, uncaught=False):
+    return ("recv", f"{node};{child};3;0;3;", tuple(faults), gw.DEFAULT_TIME, *((True,) if uncaught else ()))
 
 
 def present(n: int):
@@ -484,6 +697,39 @@ def systematic_lives(tier: str):
             # three sessions, the second one's final save fails
             mk(k, f0, [("enter",), *first, ("exit",), ("enter",), req(), ("offline",), ("exit",), ("online",), ("enter",), req(), req()])
             k += 1
+    # the controller is started again on the same file after a session that ended in each way a context statement can end
+    ends = ENDS if tier == "thorough" else None
+    for j, f0 in enumerate(files):
+        first = [req(), req()]
+        mine = ends or [ENDS[(4 * j + d) % len(ENDS)] for d in range(4)]
+        for how in mine:
+            mk(k, f0, [("enter",), *first, ("exit", how), ("restart",), ("enter",), req(), req()])
+            k += 1
+        h1, h2, h3 = (ENDS[(3 * j + d) % len(ENDS)] for d in range(3))
+        # the error that leaves the block comes from the listen loop while an id request is answered (the write fails, or
+        # the task is cancelled there: the id is registered already), or from a line that cannot be handled
+        mk(k, f0, [("enter",), req(), req((True,), uncaught=True), ("restart",), ("enter",), req(), req()])
+        k += 1
+        mk(k, f0, [("enter",), req(), present(40), req((gw.CANCEL,), uncaught=True), ("restart",), ("enter",), req(), req()])
+        k += 1
+        mk(k, f0, [("enter",), *first, present(40), ("recv", "not a message", (), gw.DEFAULT_TIME, True), ("restart",), ("enter",),
+                   req(), req()])
+        k += 1
+        # three runs of the controller, each ending differently
+        mk(k, f0, [("enter",), req(), ("exit", h1), ("restart",), ("enter",), req(), present(41), ("exit", h2), ("restart",),
+                   ("enter",), req(), req()])
+        k += 1
+        # the same object entered again after such an end, then a restart
+        mk(k, f0, [("enter",), req(), ("exit", h2), ("enter",), req(), ("exit", h3), ("restart",), ("enter",), req(), req()])
+        k += 1
+        # the final save fails as well (the volume is away when the session ends): the statement reports it, nothing is
+        # promised about the ids of that session; the volume comes back, restart
+        mk(k, f0, [("enter",), *first, ("exit", h3), ("restart",), ("enter",), req(), ("offline",), ("exit", h1), ("online",),
+                   ("restart",), ("enter",), req(), req()])
+        k += 1
+        # someone else restores a backup between the runs: nothing is promised either
+        mk(k, f0, [("enter",), *first, ("exit", h1), ("file", f0), ("restart",), ("enter",), req(), req()])
+        k += 1
     # around the upper bound: the ids run out in a later session
     for f0 in ([0, 251], [0, 252], [250], [0, 253]):
         mk(k, f0, [("enter",), req(), req(), ("offline",), ("exit",), ("online",), ("enter",), req(), req(), req()])
@@ -544,25 +790,36 @@ def gen_life(rng, version: str) -> Life:
                 fstate, fids = "good", set(reg)
             reg |= fids
 
-    def do_exit():
+    def ended():
         nonlocal inside, fids, fstate
-        ops.append(("exit",))
         inside = False
         if online:
             fstate, fids = "good", set(reg)
 
+    def do_exit():
+        ops.append(("exit",) if rng.random() < 0.45 else ("exit", rng.choice(ENDS)))
+        ended()
+
     def do_req():
         faults = (rng.choice((False, True, gw.CANCEL)),) if rng.random() < 0.12 else ()
+        uncaught = rng.random() < (0.5 if faults else 0.03)
         r = rng.random()
-        ops.append(req(faults) if r < 0.85 else req(faults, rng.choice((255, 3)), rng.choice((255, 9))))
+        ops.append(req(faults, uncaught=uncaught) if r < 0.85 else req(faults, rng.choice((255, 3)), rng.choice((255, 9)), uncaught))
         nxt = max(reg) + 1 if reg else 1
         if nxt <= 254:
             reg.add(nxt)
+        elif uncaught:
+            ended()
+        if uncaught and faults and faults[0]:
+            ended()
 
     for _ in range(rng.randint(6, 26)):
         r = rng.random()
         if not inside:
             if r < 0.55:
+                if ops and rng.random() < 0.5:
+                    ops.append(("restart",))        # the controller is started again
+                    reg = set()
                 if not online and rng.random() < 0.8:
                     ops.append(("online",))
                     online = True
@@ -618,6 +875,8 @@ def gen_life(rng, version: str) -> Life:
             fstate = "good"
         do_enter()
     for _ in range(rng.randint(1, 3)):
+        if not inside:
+            do_enter()
         do_req()
     return life
 
@@ -639,8 +898,15 @@ def run(corr: Corr, ctx) -> None:
     for life, obs in zip(lives, all_obs):
         judge(corr, life, obs)
         loaded_less = False          # a load has read a file lacking ids the registry held
+        restarted = False            # the current gateway object is not the first one of this life
         for op, o in zip(life.ops, obs):
             corr.count("life-op:" + op[0] + (" (skipped)" if o["skipped"] else ""))
+            if op[0] == "restart" and not o["skipped"]:
+                restarted, loaded_less = True, False
+            if o.get("ended"):
+                e = o["ended"]
+                corr.count("life-session-end: body left by " + (e["left_by"] or "its end") + ", __aexit__ -> "
+                           + (e["exit_out"] if e["exit_ok"] else e["exit_out"].split(":")[-1]))
             if op[0] in ("enter", "exit", "load", "reload", "save") and not o["skipped"]:
                 corr.count(f"life-outcome:{op[0]}:" + (o["out"] if o["out"] == "ok" else o["out"].split(":")[-1]))
             lacks = False
@@ -653,8 +919,11 @@ def run(corr: Corr, ctx) -> None:
             is_req = f is not None and f[2] == 3 and f[4] == 3
             if is_req and loaded_less:
                 corr.count("life:id request after such a load")
-            nt = lacks or (is_req and loaded_less)
-            key = ("life", life.version, op[0], str(op[1:3]), tuple(o["before"]), loaded_less)
+            if is_req and restarted:
+                corr.count("life:id request after a restart of the controller")
+            nt = lacks or (is_req and (loaded_less or restarted)) or bool(o.get("ended") and o["ended"]["left_by"])
+            key = ("life", life.version, op[0], str(op[1:3]), tuple(o["before"]), loaded_less, restarted,
+                   json.dumps(o.get("ended"), sort_keys=True))
             corr.case(hash(key), nt, {"life-op": list(op), "registry_before": sorted(o["before"]), "outcome": o["out"],
                                       "writes": [w[0] for w in o["writes"]]} if nt and op[0] == "recv" else None)
     corr.count("lives", len(lives))
@@ -662,9 +931,12 @@ def run(corr: Corr, ctx) -> None:
         n = compare_model(corr, lives, all_obs)
         corr.count("life-ops compared with the model", n)
     corr.notes.append(
-        "lives of one Gateway object with a persistence file (sessions entered again, final save failing because the volume is "
+        "lives of a controller with a persistence file (sessions - real `async with gateway:` statements in a task - entered "
+        "again on the same Gateway object or, after a restart, on a new one; ended normally, by a library error or an exception "
+        "of the application leaving the block, by cancellation of the task; final save failing because the volume is "
         "away, file replaced / deleted / damaged between sessions, other node files merged with Persistence.load): sessions, "
-        "volumes and files are not operations of the gateway model; the model's state is unaffected by enter/exit and a "
+        "volumes and files are not operations of the gateway model; the model's state is unaffected by enter/exit, a restart "
+        "is a fresh model gateway and a "
         "successful load is sent to the driver as one gnode per entry the harness read from the file, so these lives are "
         "compared on the ids view too; after a load that cannot be expressed that way (valid entries followed by an invalid "
         "one) the rest of the life is judged by the oracle alone")
